@@ -196,6 +196,28 @@ def run(ctx):
     neg = ctx.body(SV + "negated")
     ctx.check(bool(neg.call_blocks(ceb)) and not L.must_pass(neg, [0], neg.call_blocks(ceb)), "C16-R2", "negated:clears-excess",
               "negated() clears the bits beyond size", "SimpleVob::negated no longer clears the excess bits: a negated set contains ids >= its size", site=neg.where())
+    # clear_excessive_bits itself: storage can be longer than the logical size (alloc_with_capacity: vocab_size + 1 bits for
+    # the add_bias "no token" slot), so it has to clear *every* bit from `size` to the end of the storage, not just the
+    # tail of the word that holds bit `size`.  Accepted forms: (A) `for i in size..data.len()*32 { disallow/clear bit i }`;
+    # (B) a partial-word mask plus a clear of every following word (`data[k..]`, or a word loop up to data.len()).
+    cb_ = ctx.body(ceb)
+    rng = []
+    for bi, si, st in cb_.statements():
+        r = st.get("r", {})
+        if st["s"] == "assign" and r.get("rv") == "agg" and isinstance(r.get("kind"), dict) and r["kind"].get("adt", "").startswith("core::ops::range::Range"):
+            rng.append((r["kind"]["adt"], [L.role(cb_, o, depth=10) for o in r["ops"]]))
+    def to_end(role):
+        role = role.replace(" ", "")
+        return "call:len(&param:1.*.data)" in role
+    form_a = any(k.endswith("::Range") and len(rs) == 2 and rs[0] == "param:1.*.size" and to_end(rs[1]) and "Mul" in rs[1] and "32" in rs[1] for k, rs in rng)
+    form_b = any((k.endswith("::RangeFrom") and len(rs) == 1) or (k.endswith("::Range") and len(rs) == 2 and to_end(rs[1]) and "Mul" not in rs[1]) for k, rs in rng)
+    clears = bool(cb_.call_blocks(lambda d: d in (SV + "disallow_token", SV + "set"))) or any(
+        (SVT, "data") in w or any(x[0] == (SVT, "data") for x in m) for (w, m, r_) in P.block_effects(cb_).values())
+    ctx.check((form_a or form_b) and clears, "C16-R2", "clear_excessive_bits:covers-whole-storage-tail",
+              "bits size .. data.len()*32 are all cleared (the storage may be longer than the logical size)",
+              "clear_excessive_bits does not visibly clear every storage bit from `size` to the end of `data` (ranges seen: %s): when the "
+              "storage has spare words (alloc_token_set: vocab_size + 1 bits, vocab_size a multiple of 32), negated()/set_all(true) "
+              "leave ids >= size set" % rng, site=cb_.where())
     sa = ctx.body(SV + "set_all")
     g = L.guard_edges(sa, lambda e: e[0] in ("place", "local") and (e[1] if e[0] == "local" else e[1][0]) == 2, True)
     clr = sa.call_blocks(ceb)
